@@ -509,7 +509,53 @@ class Repo:
         if recv.split('.')[-1] in self.classes and '.' in recv:
             t = self.resolve(recv.split('.')[-1], member, ayns=via)
             return [t] if t else []
+        if recv and '.' not in recv and not via and recv not in ('self', 'cls'):
+            # <module>.function(...): a module of the package named by its short name (imported at module level or inside the function)
+            cands = [m for m in self.modules.values() if m.short == recv and member in m.functions]
+            if len(cands) == 1:
+                return [cands[0].functions[member]]
         return []
+
+    def positional_form(self, call, fn, args, kw, union=False):
+        """(args, kw) of a call with the keyword arguments that name leading positional parameters of the (uniquely resolved)
+        callee moved to their positions - `f(a, y=2)` and `f(a, 2)` are the same call"""
+        if (not kw and not union) or any(isinstance(a, ast.Starred) for a in getattr(call, 'args', [])) or any(k is None or str(k).startswith('**') for k in kw):
+            return args, kw
+        ts = self.resolve_call(call, fn)
+        ctor = False
+        if not ts:
+            recv0, member0, via0 = self.callee_desc(call)
+            cname = member0 if recv0 == '' else None
+            if cname in self.classes and not via0:
+                init = self.resolve(cname, '__init__')
+                if init is not None:
+                    ts, ctor = [init], True      # Cls(...): the parameters of its __init__ (without self)
+        if len(ts) != 1:
+            return args, kw
+        t = ts[0]
+        a = t.node.args
+        names = [x.arg for x in a.posonlyargs + a.args]
+        if ctor:
+            names = names[1:]
+        elif t.cls is not None and not t.is_static:
+            recv, member, via = self.callee_desc(call)
+            through_class = recv in self.classes or recv.split('.')[-1] in self.classes
+            if t.is_classmethod or not through_class:
+                names = names[1:]
+        args, kw = list(args), dict(kw)
+        for i in range(len(args), len(names)):
+            if names[i] in kw and names[i] not in [x.arg for x in a.posonlyargs]:
+                args.append(kw[names[i]])
+            else:
+                break
+        if union:
+            # both views complete: every argument that has a parameter name is also found under that name
+            for i, v in enumerate(args[:len(names)]):
+                kw.setdefault(names[i], v)
+        else:
+            for n_ in names[:len(args)]:
+                kw.pop(n_, None)
+        return args, kw
 
     def cha(self, member, ayns=True):
         """all classes defining `member` (class-hierarchy analysis for <expr>.ayns.member())"""
@@ -544,7 +590,7 @@ def _walk_expr(node):
         stack.extend(ast.iter_child_nodes(n))
 
 
-def fold_const(repo, expr, cls_name=None):
+def fold_const(repo, expr, cls_name=None, _depth=0):
     """fold a literal / ConfigNode.WEAK style constant; returns (ok, value)"""
     try:
         return True, ast.literal_eval(expr)
@@ -561,4 +607,9 @@ def fold_const(repo, expr, cls_name=None):
         owner, e = repo.class_attr(cls_name, expr.id)
         if e is not None:
             return fold_const(repo, e, owner)
+        ci = repo.classes.get(cls_name)
+        if ci is not None and _depth < 4:
+            g = ci.module.constant_binding(expr.id)       # a module-level constant named in the class body
+            if g is not None and not (isinstance(g, ast.Name) and g.id == expr.id):
+                return fold_const(repo, g, cls_name, _depth + 1)
     return False, None
